@@ -7,6 +7,7 @@ package c19
 // explicitly to unblock a peer.
 
 import (
+	"encoding/binary"
 	"errors"
 	"fmt"
 	"io"
@@ -58,6 +59,14 @@ func mutate(b []byte, op string, pos int, bit uint8) (out []byte, cut bool) {
 		out = append(append([]byte{}, b[:pos]...), b[pos+1:]...)
 	case "trunc":
 		out, cut = append([]byte{}, b[:pos]...), true
+	case "setlen":
+		// the 8-byte length word at the start of the frame replaced by a hostile value (frame mode, region "len"):
+		// below the nonce + tag minimum, just around it, just above any limit, and the extremes
+		vals := []uint64{0, 1, 11, 12, 13, 27, 28, 29, 4095, 1 << 16, 1 << 31, 1 << 32, 1<<63 - 1, 1 << 63, ^uint64(0)}
+		out = append([]byte{}, b...)
+		if len(out) >= 8 {
+			binary.LittleEndian.PutUint64(out, vals[int(bit)%len(vals)])
+		}
 	default:
 		panic("harness: unknown fault op " + op)
 	}
